@@ -11,7 +11,7 @@ and `Lemmas/ReadEntry.lean` (`find_content`, `by_index*`, lookup by name, Unix m
   against an independent Rust builder, the real crate and CPython `zipfile` by the `spec` stream);
 * what the reader must report is `Spec.Zip.viewOf` (Spec/ZipView.lean), written from the layout alone;
 * the reader is `Model.openArchive`, `Model.byIndexRaw`, `Model.byIndexRead`, `Model.byNameRead`,
-  `Model.Archive.indexOfName` (Model/Reader.lean, tied to the crate by the `read` stream).
+  `Model.Archive.indexOfName` (Model/Reader.lean; tied to the crate by TRANSLATION since session 4 — Tie/Parsers, Tie/ReaderGlue, ReaderGlue2, ReaderApi, Accessors: `ZipArchive::new`, `find_content`, `by_index*`, `by_name*`, the accessors — and by the `read` stream).
 -/
 
 namespace ZipVerif.Props.C03
